@@ -418,6 +418,11 @@ func genC07N(seed uint64, run int, tier string) Scenario {
 	sc.F.CloseMode = pick(r, "eof", "eof", "err", "stuck")
 	sc.F.CloseReturnsErr = r.IntN(5) == 0
 	sc.State = pick(r, c07NStates...)
+	if leg == "NR" && r.IntN(2) == 0 {
+		// the free-running leg looks for unsynchronised access: the paths taken after a read
+		// error (published error values, a loop that reads on) get half of its runs
+		sc.State = pick(r, "after-err-consumed", "after-err-consumed", "after-err-unconsumed", "err-arriving", "after-eof-consumed")
+	}
 	rdUS := sc.ReadDelayUS
 	if rdUS == 0 {
 		rdUS = 1
